@@ -26,7 +26,12 @@ OPS = {
 
 def build_binary():
     """Builds the real binary from /repo's working tree (target dir under /verif/.cache, never in /repo)."""
-    tgt = os.path.join(common.CACHE, "real-target")
+    # /repo itself has a persistent warm target dir; a scratch copy of the repository (bin/try_patch) gets its own inside
+    # the copy (sharing one target dir between two source paths leaves a stale uplifted binary behind)
+    if os.path.realpath(common.REPO) == "/repo":
+        tgt = os.path.join(common.CACHE, "real-target")
+    else:
+        tgt = os.path.join(common.REPO, "target-verif-replay")
     os.makedirs(tgt, exist_ok=True)
     rc, out, secs = common.run(["cargo", "build", "--offline", "-p", "fclones"], cwd=common.REPO,
                                env={"CARGO_TARGET_DIR": tgt}, timeout=1800)
@@ -166,3 +171,93 @@ def replay_transform_frame():
         if not same:
             bad.append("group %s changed the scanned tree (%d of %d files left)" % (" ".join(mode), len(after), len(before)))
     return dict(reproduced=bool(bad), log="\n".join(logs), what="; ".join(bad) or "the scanned tree is unchanged in every transform mode")
+
+
+# ---------------------------------------------------------------------------------------------------------
+# Fault replay (C05 / C18 / C02 frame): the verifier's counterexample is a fault tape (which file-system steps fail).
+# Its class is replayed on the real binary by injecting errors with strace at every position of every mutating system
+# call the command issues, singly and in pairs, and checking the property's invariant on the resulting tree.
+
+FAULT_SYSCALLS = ["rename", "linkat", "symlink", "unlink", "mkdir", "copy_file_range", "ioctl"]
+
+
+def _fault_scenario(tag, op, preexisting=False):
+    d = make_scenario(tag)
+    tree = os.path.join(d, "tree")
+    if op == "move" and preexisting:
+        tgt = os.path.join(d, "target") + os.path.join(tree, "b", "x")
+        os.makedirs(os.path.dirname(tgt), exist_ok=True)
+        with open(tgt, "wb") as f:
+            f.write(b"pre-existing foreign file\n")
+    return d, tree
+
+
+def _check_tree(op, d, tree, before, preexisting):
+    """Returns a list of invariant violations (strings) for the tree left by one faulted run."""
+    bad = []
+    after = inventory(tree)
+    a0, b0 = before["a/x"], before["b/x"]
+    if after.get("a/x") != a0:
+        bad.append("retained file a/x was changed: %s -> %s" % (a0, after.get("a/x")))
+    orig = b0[1]
+    places = [v for k, v in after.items() if k == "b/x" or k.startswith("b/x.")]
+    tgt_root = os.path.join(d, "target")
+    moved = inventory(tgt_root) if os.path.isdir(tgt_root) else {}
+    b_now = after.get("b/x")
+    ok_b = any(v[1] == orig for v in places)  # original bytes at the path or under the temporary sibling name
+    if b_now is not None and (b_now[0] == a0[0] or str(b_now[1]).startswith("symlink->")):
+        ok_b = True  # replaced by a hard link / symlink to the retained file
+    if op == "remove":
+        ok_b = True  # removing b/x is the operation itself
+    if op == "move" and any(v[1] == orig for v in moved.values()):
+        ok_b = True  # complete bytes under the target directory
+    if not ok_b:
+        bad.append("bytes of b/x are nowhere: tree=%s target=%s" % (after, moved))
+    if op == "move" and preexisting:
+        pre = [v for k, v in moved.items() if v[1] == sha_bytes(b"pre-existing foreign file\n")]
+        if not pre:
+            bad.append("the pre-existing file under the move target was altered: %s" % moved)
+    return bad
+
+
+def sha_bytes(b):
+    return hashlib.sha256(b).hexdigest()[:16]
+
+
+def replay_faults(op, preexisting=False, max_runs=260):
+    exe, msg = build_binary()
+    if not exe:
+        return dict(reproduced=None, log="could not build the real binary: " + msg)
+    if shutil.which("strace") is None:
+        return dict(reproduced=None, log="strace not available")
+    schedules = [()]
+    singles = [(s, k) for s in FAULT_SYSCALLS for k in (1, 2, 3)]
+    schedules += [(x,) for x in singles]
+    schedules += [(singles[i], singles[j]) for i in range(len(singles)) for j in range(i + 1, len(singles))]
+    logs, bad_all, runs = [], [], 0
+    for sched in schedules:
+        if runs >= max_runs:
+            break
+        runs += 1
+        d, tree = _fault_scenario("fault-%s" % op, op, preexisting)
+        report = os.path.join(d, "report.txt")
+        rc, out, _ = common.run([exe, "group", tree, "-o", report], cwd=d, timeout=120)
+        before = inventory(tree)
+        args = ["strace", "-f", "-o", "/dev/null", "-e", "trace=" + ",".join(FAULT_SYSCALLS)]  # injection needs the calls traced
+        for s, k in sched:
+            # restrict the injection to the command's own mutating calls on the scenario files
+            args += ["-e", "inject=%s:error=EIO:when=%d" % (s, k)]
+        args += [exe] + OPS[op]
+        if op == "move":
+            args.append(os.path.join(d, "target"))
+        with open(report) as rin:
+            p = subprocess.run(args, stdin=rin, cwd=d, stdout=subprocess.PIPE, stderr=subprocess.STDOUT, text=True, timeout=120)
+        bad = _check_tree(op, d, tree, before, preexisting)
+        if bad:
+            bad_all.append("schedule %s: %s | output: %s" % (list(sched), "; ".join(bad), p.stdout[-300:].replace("\n", " / ")))
+        shutil.rmtree(d, ignore_errors=True)
+        if len(bad_all) >= 3:
+            break
+    return dict(reproduced=bool(bad_all), runs=runs, log="\n".join(bad_all) or "no schedule of %d violated the invariant" % runs,
+                what=("`fclones %s` under injected system-call failures left the tree in a state the property forbids: %s" %
+                      (" ".join(OPS[op]), bad_all[0][:300])) if bad_all else "no injected fault schedule violated the invariant on the real binary")
